@@ -705,6 +705,11 @@ impl<NumericTypes: EvalexprNumericTypes> Node<NumericTypes> {
                     if node.operator().is_leaf() {
                         return Err(EvalexprError::AppendedToLeafNode);
                     }
+                    // Only a binary operator takes the preceding operand as its left argument.
+                    // Anything else following a complete operand (like the `()` in `1 + 4()`) lacks an operator.
+                    if node.operator().max_argument_amount() != Some(2) {
+                        return Err(EvalexprError::MissingOperatorOutsideOfBrace);
+                    }
 
                     // Unwrap cannot fail because is_leaf being false and has_enough_children being true implies that the operator wants and has at least one child
                     let last_child = self.children.pop().unwrap();
@@ -740,6 +745,11 @@ impl<NumericTypes: EvalexprNumericTypes> Node<NumericTypes> {
                 }
             } else {
                 // println!("Inserting as specified");
+                // A binary operator needs the preceding operand as its left argument, it cannot start an operand.
+                // Otherwise, expressions like `+ 1 2` would be accepted.
+                if node.operator().max_argument_amount() == Some(2) {
+                    return Err(EvalexprError::wrong_operator_argument_amount(0, 2));
+                }
                 self.children.push(node);
                 Ok(())
             }
